@@ -624,7 +624,7 @@ func (t *Task) rangeNext(it *rangeIter, x *ssa.Next) Value {
 		return Tuple{c.False, p.zero(tt.At(1).Type()), p.zero(tt.At(2).Type())}
 	}
 	i := 0
-	if !p.W.Opts.MapOrderFixed && len(it.remain) > 1 {
+	if !p.W.Opts.MapOrderFixed && !p.mapOrderFixed && len(it.remain) > 1 {
 		i = p.Choose(len(it.remain), "maporder")
 	}
 	e := it.remain[i]
